@@ -338,13 +338,25 @@ def reparent (s : Store) (curr : Nat) : Nat → Option Nat → Nat → Res (Stor
     let s1 ← s.modify t fun x => { x with parent := some curr }
     reparent s1 curr f tn.next (m + 1)
 
-/-- `mpt_node_move(from, dst)`; `head` is the value of `*from` on entry (`slot` says where it is stored).
-    Result: store, number of moved nodes. -/
-def move (s : Store) : Nat → Slot → Option Nat → Nat → Res (Store × Nat)
-  | f, slot, head, dst => moveLoop s f slot head head dst dst 0
-where
-  /-- loop state: `src`, `last`, `move`; `cur` tracks `*from` -/
-  moveLoop (s : Store) : Nat → Slot → Option Nat → Option Nat → Nat → Nat → Nat → Res (Store × Nat)
+/-- `if (*from == curr) *from = src;` where `*from` is the child link of `p` (a caller's variable is not part of
+    the store): `moved` is the node just moved, `next` its old successor -/
+def slotFix (s : Store) (slot : Slot) (moved : Nat) (next : Option Nat) : Res Store :=
+  match slot with
+  | .kids p => do
+    let pn ← s.get p
+    if pn.children = some moved then s.modify p fun x => { x with children := next } else pure s
+  | .loc => .ok s
+
+/-- the children of `src` are handed over to the childless namesake `curr`:
+    `curr->children = tmp; while (tmp) { tmp->parent = curr; … ++move; } src->children = 0;` -/
+def handOver (s : Store) (f : Nat) (src curr sc : Nat) : Res (Store × Nat) := do
+  let s1 ← s.modify curr fun x => { x with children := some sc }
+  let r ← reparent s1 curr f (some sc) 0
+  let s2 ← r.1.modify src fun x => { x with children := none }
+  pure (s2, r.2)
+
+/-- the loop of `mpt_node_move`; loop state: `src`, `last`, `move`; `cur` tracks `*from` when it is a variable -/
+def moveLoop (s : Store) : Nat → Slot → Option Nat → Option Nat → Nat → Nat → Nat → Res (Store × Nat)
   | _, _, _, none, _, _, m => .ok (s, m)
   | 0, _, _, some _, _, _, _ => .fault
   | f + 1, slot, cur, some src, dst, last, m => do
@@ -355,30 +367,29 @@ where
       -- move the complete node
       let u ← unlink s src
       let s1 ← nodeInsert u.1 last 0 src false
-      -- `if (*from == curr) *from = src;`
-      let s2 ← match slot with
-        | .kids p => do
-          let pn ← s1.get p
-          if pn.children = some src then s1.modify p fun x => { x with children := sn.next } else pure s1
-        | .loc => pure s1
-      let cur' := if cur = some src then sn.next else cur
-      moveLoop s2 f slot cur' sn.next dst src (m + 1)
-    | some curr => do
+      let s2 ← slotFix s1 slot src sn.next
+      moveLoop s2 f slot (if cur = some src then sn.next else cur) sn.next dst src (m + 1)
+    | some curr =>
       match sn.children with
       | none => moveLoop s f slot cur sn.next dst last m
       | some sc => do
         let cn ← s.get curr
         match cn.children with
         | some cc => do
+          -- merge children
           let r ← moveLoop s f (.kids src) (some sc) (some sc) cc cc 0
           let sn' ← r.1.get src
           moveLoop r.1 f slot cur sn'.next dst last (m + r.2)
         | none => do
-          let s1 ← s.modify curr fun x => { x with children := some sc }
-          let r ← reparent s1 curr f (some sc) 0
-          let s2 ← r.1.modify src fun x => { x with children := none }
-          let sn' ← s2.get src
-          moveLoop s2 f slot cur sn'.next dst last (m + r.2)
+          -- reparent children to target
+          let r ← handOver s f src curr sc
+          let sn' ← r.1.get src
+          moveLoop r.1 f slot cur sn'.next dst last (m + r.2)
+
+/-- `mpt_node_move(from, dst)`; `head` is the value of `*from` on entry (`slot` says where it is stored).
+    Result: store, number of moved nodes. -/
+def move (s : Store) (f : Nat) (slot : Slot) (head : Option Nat) (dst : Nat) : Res (Store × Nat) :=
+  moveLoop s f slot head head dst dst 0
 
 /-! ### the structure as an observer sees it (same walk as harness/drv_node.c) -/
 
